@@ -17,8 +17,9 @@ ID = "C03"
 LEVEL = "exploration"
 MARGIN = 700_000  # bytes of non-data allocations tolerated per task (measured interpreter/zarr noise is 40-80 kB)
 RULE = (
-    "Hypothesis draws an operation template (about 60 public operations and short fused chains), a chunk geometry (square, skinny, "
-    "uneven last chunk; chunk memory 1.5-6 MB), an input dtype (float64, float32, int64, int8, bool, complex128 where the operation "
+    "Hypothesis draws an operation template (about 75 public operations, short fused chains, fusions that keep two or three "
+    "predecessor outputs alive, widening reductions over a short axis; every template is also visited in every run by sweep shards), "
+    "a chunk geometry (square, skinny with 8/4/2-wide chunks, wide, uneven last chunk; chunk memory 2-8 MB for every dtype), an input dtype (float64, float32, int64, int8, bool, complex128 where the operation "
     "allows), a compressor (none / default), a data class (compressible / incompressible) and an optimizer mode (off / default / "
     "fuse-all). Inputs are Zarr arrays written beforehand to a local directory so reads allocate like real reads. The plan is run by "
     "a sequential executor that measures, for EVERY task of EVERY operation, the tracemalloc peak relative to the level before the "
@@ -117,6 +118,22 @@ def _T():
         "svdvals": (1, ("float64",), lambda a: xp.linalg.svdvals(a[:, :64].rechunk((a.chunksize[0], 64)))),
         "full-like-add": (1, REAL, lambda a: xp.add(a, xp.ones_like(a))),
         "to_zarr": (1, ALLD, "STORE"),
+        # fusions that keep several predecessor outputs alive (peak_projected_mem): two binary predecessors, same and mixed dtypes
+        "two-preds": (2, NUMD, lambda a, b: xp.add(xp.add(a, b), xp.multiply(a, b))),
+        "two-preds-mixed": (2, ("float64", "int64"), lambda a, b: xp.add(xp.add(a, b), xp.multiply(b, b)), {"dtype2": "float32"}),
+        "three-preds": (2, ("float64", "float32"), lambda a, b: xp.where(xp.greater(a, b), xp.add(a, b), xp.multiply(a, b))),
+        "pred-chain-binary": (2, NUMD, lambda a, b: xp.multiply(xp.add(xp.negative(a), b), xp.subtract(a, b))),
+        # predecessors whose outputs are narrower than their inputs (recorded known finding: the inputs of ALL predecessors are
+        # loaded before the first one runs, the model frees each predecessor's inputs before the next one starts)
+        "two-preds-mixed-late": (2, ("float64",), lambda a, b: xp.add(xp.multiply(a, a), xp.add(a, b)), {"dtype2": "float32"}),
+        "cmp-and-fused": (2, ("float64", "float32"), lambda a, b: xp.logical_and(xp.less(a, b), xp.less(b, a))),
+        "narrowing-preds": (2, ("float64", "int64"), lambda a, b: xp.add(xp.astype(a, xp.int8), xp.astype(b, xp.int8))),
+        "widening-preds": (2, ("float32", "int8"), lambda a, b: xp.add(xp.astype(a, xp.float64), xp.astype(b, xp.float64))),
+        # widening reductions whose reduced chunk is as large as (or larger than) an input chunk: short reduced axis
+        "sum-widen-short": (1, ("int8", "bool", "float32"), lambda a: xp.sum(a, axis=-1, dtype=xp.int64 if np.dtype(a.dtype).kind in "ib" else xp.float64), {"geoms": ("skinny", "skinny4", "skinny2")}),
+        "mean-widen-short": (1, ("float32", "int8"), lambda a: xp.mean(a, axis=-1) if np.dtype(a.dtype).kind == "f" else xp.mean(xp.astype(a, xp.float32), axis=-1), {"geoms": ("skinny", "skinny4", "skinny2")}),
+        "prod-widen-short": (1, ("int8",), lambda a: xp.prod(a, axis=-1), {"geoms": ("skinny", "skinny4", "skinny2")}),
+        "max-short": (1, REAL, lambda a: xp.max(a, axis=-1), {"geoms": ("skinny", "skinny4", "skinny2")}),
     }
     return T
 
@@ -141,7 +158,25 @@ GEOMS = {
     "skinny": ((240000, 8), (60000, 8)),
     "uneven": ((1300, 1100), (700, 600)),
     "wide": ((16, 120000), (8, 60000)),
+    "skinny4": ((240000, 16), (120000, 4)),
+    "skinny2": ((480000, 8), (240000, 2)),
 }
+
+
+def geometry(case):
+    """shape/chunks of the inputs: the long axis is scaled for narrow dtypes so that an input chunk is never below ~2 MB
+    (an extra chunk-sized copy must stand out above MARGIN for every dtype)"""
+    shape, chunks = GEOMS[case["geom"]]
+    k = {1: 4, 2: 4, 4: 2}.get(np.dtype(case["dtype"]).itemsize, 1)
+    ax = int(np.argmax(shape))
+    shape = tuple(n * k if i == ax else n for i, n in enumerate(shape))
+    chunks = tuple(c * k if i == ax else c for i, c in enumerate(chunks))
+    return shape, chunks
+
+
+def topts(t):
+    e = templates()[t]
+    return e[3] if len(e) > 3 else {}
 
 # ---- known-finding regions (root causes recorded in KNOWN_FINDINGS.txt); the main campaign stays out of them by construction
 def known_region(case):
@@ -156,6 +191,11 @@ def known_region(case):
         return "fused-comparison-into-reduction"
     if (t == "clip" and dt == "int8") or (t == "isin" and dt in ("int64", "int8")):
         return "numpy-temporaries-not-modelled"
+    if (t in ("two-preds-mixed-late", "cmp-and-fused", "narrowing-preds") and opt != "off") or (t == "three-preds" and opt == "fuse-all"):
+        # three-preds: the comparison predecessor (bool output) is only fused with the two arithmetic ones under forced fusion
+        return "fused-predecessor-inputs-all-live"
+    if t == "vecdot" and case["geom"] == "skinny2" and opt != "off":
+        return "binary-predecessor-fused-into-short-axis-reduction"
     if t == "searchsorted" and opt == "fuse-all":
         return "forced-fusion-searchsorted"
     if case["compressor"] == "default":
@@ -163,20 +203,20 @@ def known_region(case):
     return None
 
 
-def case_strategy(include_known=False):
+def case_strategy(include_known=False, only=None):
     from hypothesis import strategies as st
 
-    names = sorted(templates())
+    names = sorted(only or templates())
 
     @st.composite
     def cases(draw):
         t = draw(st.sampled_from(names))
-        nin, dts, _ = templates()[t]
+        nin, dts = templates()[t][:2]
         case = {
             "kind": "memory",
             "template": t,
             "dtype": draw(st.sampled_from(list(dts))),
-            "geom": draw(st.sampled_from(sorted(GEOMS))),
+            "geom": draw(st.sampled_from(sorted(topts(t).get("geoms") or GEOMS))),
             "compressor": draw(st.sampled_from(["none", "none", "default"])),
             "data": draw(st.sampled_from(["compressible", "incompressible"])),
             "optimize": draw(st.sampled_from(["off", "default", "default", "fuse-all"])),
@@ -201,6 +241,10 @@ def case_strategy(include_known=False):
                     case["template"] = "greater"
                 elif kr == "numpy-temporaries-not-modelled":
                     case["dtype"] = "float64"
+                elif kr == "fused-predecessor-inputs-all-live":
+                    case["template"] = "two-preds"
+                elif kr == "binary-predecessor-fused-into-short-axis-reduction":
+                    case["geom"] = "skinny4"
                 elif kr == "forced-fusion-searchsorted":
                     case["optimize"] = "default"
                 if case["dtype"] not in templates()[case["template"]][1]:
@@ -253,9 +297,9 @@ def measure(case, compressor=None, optimize=None):
     comp = compressor if compressor is not None else case["compressor"]
     optm = optimize if optimize is not None else case["optimize"]
     t = case["template"]
-    nin, dts, build = templates()[t]
-    shape, chunks = GEOMS[case["geom"]]
-    dtype = np.dtype(case["dtype"])
+    nin, dts, build = templates()[t][:3]
+    shape, chunks = geometry(case)
+    dtype0 = np.dtype(case["dtype"])
     wd = c01.Scratch.fresh("c03")
     out = {"rows": [], "error": None}
     try:
@@ -263,6 +307,7 @@ def measure(case, compressor=None, optimize=None):
         spec = cubed.Spec(os.path.join(wd, "work"), allowed_mem=8_000_000_000, reserved_mem=0, **kw)
         ins = []
         for k in range(nin):
+            dtype = np.dtype(topts(t)["dtype2"]) if (k == 1 and topts(t).get("dtype2")) else dtype0
             n = int(np.prod(shape))
             if case["data"] == "incompressible":
                 # pseudo-random bits (deterministic): multiplicative hashing of the index
@@ -287,7 +332,7 @@ def measure(case, compressor=None, optimize=None):
         with warnings.catch_warnings():
             warnings.simplefilter("ignore")
             if build == "STORE":
-                res = [cubed.to_zarr(ins[0] + 1 if dtype.kind != "b" else ins[0], os.path.join(wd, "out.zarr"), compute=False)]
+                res = [cubed.to_zarr(ins[0] + 1 if dtype0.kind != "b" else ins[0], os.path.join(wd, "out.zarr"), compute=False)]
             else:
                 r = build(*ins)
                 res = list(r) if isinstance(r, (tuple, list)) else [r]
@@ -299,7 +344,7 @@ def measure(case, compressor=None, optimize=None):
             ex = MemExec()
             cubed.compute(*res, executor=ex, _return_in_memory_array=False, **kwc)
         out["rows"] = ex.rows
-        out["chunk_bytes"] = int(np.prod(chunks)) * dtype.itemsize
+        out["chunk_bytes"] = int(np.prod(chunks)) * dtype0.itemsize
     except Exception as e:
         out["error"] = f"{type(e).__name__}: {str(e)[:200]}"
     finally:
@@ -377,8 +422,10 @@ def check_case(case) -> Outcome:
 
 def shards(tier):
     if tier == "quick":
-        return [{"kind": "memory", "name": f"m{i}", "n": 14} for i in range(8)]
-    return [{"kind": "memory", "name": f"m{i}", "n": 220} for i in range(16)]
+        return [{"kind": "memory", "name": f"m{i}", "n": 24} for i in range(8)] + [
+            {"kind": "sweep", "name": f"sweep{i}", "part": i, "of": 8, "per": 3} for i in range(8)]
+    return [{"kind": "memory", "name": f"m{i}", "n": 220} for i in range(16)] + [
+        {"kind": "sweep", "name": f"sweep{i}", "part": i, "of": 16, "per": 40} for i in range(16)]
 
 
 def run_shard(spec, seed, tier) -> Acc:
@@ -386,6 +433,12 @@ def run_shard(spec, seed, tier) -> Acc:
     if spec["kind"] == "__corpus__":
         return core.corpus_shard(sys.modules[__name__], acc)
     is_known, _ = core.known_matcher(ID)
+    if spec["kind"] == "sweep":
+        # every operation template is visited in every run: `per` cases (geometry, dtype, compressor, data, optimizer drawn) each
+        for j, t in enumerate(sorted(templates())[spec["part"]::spec["of"]]):
+            core.hyp_run(case_strategy(only=[t]), check_case, seed=seed + j, max_examples=spec["per"], acc=acc,
+                         budget_s=120 if tier == "quick" else 1500, shrink=False, is_known=is_known)
+        return acc
     core.hyp_run(case_strategy(), check_case, seed=seed, max_examples=spec["n"], acc=acc, budget_s=500 if tier == "quick" else 3000, shrink=False, is_known=is_known)
     return acc
 
